@@ -260,6 +260,9 @@ def run(chk):
     for adt, op in ((SOP, "or"), (SOES, "or"), (ESOP, "xor")):
         try:
             container_value_rule(chk, facts, Container(facts, adt), op, "C16.V")
+            from ..window import window_value
+            for L in (1, 2, 3):
+                window_value(chk, "C16.V", facts, Container(facts, adt), L, op)
         except (KeyError, Undecided) as e:
             chk.undecided("C16.V", "%s::value" % adt.split("::")[-1], str(e))
     chk.notes["explanation"] = "token-level abstract interpretation of the Display impls; every abstract path of the cube printers fixes object and text, which are compared through the grammar"
